@@ -167,7 +167,9 @@ def run(ctx):
     ctx.rule = ("one enzyme per distinct (site, offset, overhang) triple; generated complete assemblies (chains of 1-4, "
                 "targets 2-10 nt) and assemblies with one module left out, every plasmid read from a random origin (mostly "
                 "inside the flanking structure), reverse-complemented through CircularRecord.reverse_complement(); "
-                "non-trivial = a complete forward assembly")
+                "non-trivial = a complete forward assembly; besides, for the enzymes that miss the family only by the letters "
+                "of their site (implementation only, no theorem): instances of the generic structures with exactly two sites "
+                "and one-letter corruptions, valid on both strands or neither, overhangs exchanged")
     rng = ctx.rng
     triples = {}
     for e in ctx.tables["enzymes"]:
